@@ -251,6 +251,24 @@ def pss_sign_contract():
                     modifies=[], opaque=[S + 'mgf1', S + 'emsa_pss_em'], options={'int_lemmas': []})
 
 
+def new_contract():
+    """pss.new(rsa_key, **kwargs): keyword handling.  kwargs ranges over the 8 subsets of the documented keywords (values not None)
+    and two records with an unknown keyword; identity of the caller's mask_func is stated through its ghost id (old() yields a copy)"""
+    keys = [('mask_func', OMGF), ('salt_bytes', 'nat'), ('rand_func', RANDFUNC)]
+    alts = ['dict(%s)' % ', '.join('%s:%s' % (k, t) for i, (k, t) in enumerate(keys) if m >> i & 1) for m in range(8)]
+    alts += ['dict(salt_bytes:nat, saltbytes:nat)', 'dict(mgf:%s)' % OMGF]
+    return Contract(P + 'new', params={'rsa_key': 'obj:' + RSA + 'RsaKey', 'kwargs': alts},
+                    raises={'ValueError': ('iff', "not all([k in ('mask_func', 'salt_bytes', 'rand_func') for k in kwargs.keys()])")},
+                    result='obj:' + SCHEME,
+                    ensures={'key': 'result._key is rsa_key',
+                             'mask_func': '(old(kwargs.get("mask_func")) is None and result._mgfunc is None) or '
+                                          'result._mgfunc.g_id == old(kwargs.get("mask_func")).g_id',
+                             'salt_bytes': 'result._saltLen == old(kwargs.get("salt_bytes"))',
+                             'rand_func': 'old(kwargs.get("rand_func")) is None or result._randfunc is old(kwargs.get("rand_func"))',
+                             'rand_default': 'callable(result._randfunc)'},
+                    modifies=['kwargs'])
+
+
 def registry(r=None, lencase=None, part=None, salt=None, mgf=None):
     r = None if r in (None, '') else int(r)
     lencase = lencase or None
@@ -264,6 +282,7 @@ def registry(r=None, lencase=None, part=None, salt=None, mgf=None):
     add_scheme(reg, salt, mgf)
     reg.add(pss_verify_contract())
     reg.add(pss_sign_contract())
+    reg.add(new_contract())
     return reg
 
 
@@ -281,6 +300,7 @@ def units(prop, tier):
                                  [P + '_EMSA_PSS_ENCODE']))
             out.append(pyvc_unit(prop, 'sig.pss.emsa_encode_bound.embits_mod8_%d' % r, (lambda r=r: registry(r, None, 'bound')),
                                  [P + '_EMSA_PSS_ENCODE']))
+        out.append(pyvc_unit(prop, 'sig.pss.new', registry, [P + 'new']))
         for salt in ('default', 'given'):
             for mgf in ('mgf1', 'user'):
                 out.append(pyvc_unit(prop, 'sig.pss.verify.salt_%s.mgf_%s' % (salt, mgf),
